@@ -8,6 +8,7 @@ from symx import HarnessError, RegexShim, SymStr, cur, sym_float, sym_int
 from symx.core import Ctx
 
 _DONE = [False]
+_MISSING = object()
 
 NUM_MODULES = [
     "shexer.core.shexing.strategy.abstract_shexing_strategy",
@@ -52,19 +53,55 @@ def str_float(x=0.0):
     return sym_float(x)
 
 
+_SAVED = []
+_INT_MODULES = [m for m in NUM_MODULES if not m.endswith("abstract_shexing_strategy")]   # that module uses `int` as a *type*
+
+
 def install():
     if _DONE[0]:
         return
+    import builtins as _b
     for m in NUM_MODULES:
         mod = importlib.import_module(m)
+        _SAVED.append((mod, "float", mod.__dict__.get("float", _MISSING)))
         mod.float = sym_float
-        mod.int = sym_int
+        if m in _INT_MODULES:
+            _SAVED.append((mod, "int", mod.__dict__.get("int", _MISSING)))
+            mod.int = sym_int
     for m in STR_FLOAT_MODULES:
         mod = importlib.import_module(m)
+        _SAVED.append((mod, "float", mod.__dict__.get("float", _MISSING)))
         mod.float = str_float
     for m, name in REGEX_SHIMS:
         mod = importlib.import_module(m)
         obj = getattr(mod, name)
         if not isinstance(obj, RegexShim):
+            _SAVED.append((mod, name, obj))
             setattr(mod, name, RegexShim(obj))
     _DONE[0] = True
+
+
+def uninstall():
+    if not _DONE[0]:
+        return
+    for mod, name, orig in reversed(_SAVED):
+        if orig is _MISSING:
+            if name in mod.__dict__:
+                delattr(mod, name)
+        else:
+            setattr(mod, name, orig)
+    del _SAVED[:]
+    _DONE[0] = False
+
+
+class real_code:
+    """Context manager: the un-shimmed /repo code (used for every concrete witness run)."""
+
+    def __enter__(self):
+        self.was = _DONE[0]
+        uninstall()
+
+    def __exit__(self, *a):
+        if self.was:
+            install()
+        return False
